@@ -1293,8 +1293,14 @@ impl SpanParser {
                 // lowest unit of time.
                 break;
             } else {
+                // A bigger unit that exceeded its limit may have been spilled
+                // into this unit (see below), so add to whatever is there.
+                let total = value.try_checked_add(
+                    "unit value",
+                    span.get_units_ranged(unit),
+                )?;
                 let result =
-                    span.try_units_ranged(unit, value).with_context(|| {
+                    span.try_units_ranged(unit, total).with_context(|| {
                         err!(
                             "failed to set value {value:?} \
                              as {unit} unit on span",
